@@ -317,7 +317,7 @@ def truth_for(data, ops, sibling=None, other=None):
     return table
 
 
-def execute(data, ops, chooser, observer=None, step_cap=10 ** 7, sibling=None, preempt=None, other=None):
+def execute(data, ops, chooser, observer=None, step_cap=1500000, sibling=None, preempt=None, other=None):
     """Runs the history.  Returns (outcomes aligned with ops (None for open/close that succeeded),
     fs, run result).  observer(i, op, opener, obj, requests, outcome) is called after every op with
     the range requests that op issued."""
